@@ -35,7 +35,7 @@ func init() {
 			"btcd/btcutil/bchutil (trusted dependencies)"},
 		Stub:        []string{"Bitcoin network: simulated regtest chain (validly linked, mined headers; real transactions, merkle trees, secp256k1 signatures)", "VBFT server and p2p (block-producer stub of e1)"},
 		Assumptions: []string{"the reported input total of a withdrawal is observed as payment + change output value of the built transaction (makeBtcTx sets change = total - payment and omits a non-positive change)", "vault keys sign whatever setBtcTxParam the plan asks for, including absurd minimum-change values"},
-		QuickRuns:   240, ThoroughRuns: 12000, QuickCap: 50, ThoroughCap: 800,
+		QuickRuns:   200, ThoroughRuns: 12000, QuickCap: 45, ThoroughCap: 780,
 		RequiredProbes: []string{"deposit_accepted", "withdrawal_built", "exact_match_selection", "change_at_least_min_change", "insufficient_funds_rejected",
 			"rolled_back_withdrawal", "multi_input_selection", "selected_p2sh", "selected_p2wsh", "clean_restart", "signing_completed"},
 		Generate: generate,
@@ -724,9 +724,11 @@ func generate(rng *kernel.RNG, idx int, tier string) *kernel.Plan {
 	useRestart := rng.Chance(0.7)
 	useSign := rng.Chance(0.75)
 	absurd := rng.Chance(0.04)
-	if tier == "thorough" && size == 2 && rng.Chance(0.03) {
-		// one search-exhausting rejection against a large set (tens of CPU seconds per execution)
-		cfg["hard"], cfg["followers"], cfg["reexec"] = 1, 0, 1
+	if tier == "thorough" {
+		// allow rejections that make the first search enumerate up to 2^17 subsets (seconds of CPU);
+		// the 10^6-step exhaustion against >= 20 small outputs costs minutes per block and is
+		// never generated (cfg "hard" stays 0; a replay file may set it)
+		cfg["bigset"] = int64(13 + rng.Intn(5))
 	}
 	// palette of repeated values
 	pal := make([]int64, rng.Range(1, 4))
